@@ -77,6 +77,12 @@ func eachValidObject(rng *Rng, n int, visit func(class string, c psa.IClaims, d 
 					}
 				}
 			}
+			if rng.Chance(3) && len(d.Sw) > 0 {
+				// many components (the decoder's own limits must not be below what the encoder emits)
+				for len(d.Sw) < Pick(rng, []int{16, 17, 40, 200}) {
+					d.Sw = append(d.Sw, validComp(rng))
+				}
+			}
 			normalise(&d)
 			switch i % 3 {
 			case 0:
